@@ -62,7 +62,7 @@ def main():
     meta = {"id": sid, "property": prop, "ran": []}
     try:  # annotations written by hand survive a re-validation
         prev = json.load(open(os.path.join(out, "meta.json")))
-        for k in ("summary", "first_validation", "disposition", "strengthening"):
+        for k in ("summary", "first_validation", "disposition", "strengthening", "note"):
             if k in prev:
                 meta[k] = prev[k]
     except Exception:
